@@ -88,7 +88,12 @@ _scn('clone',
      pool=[(D, None), (E, 'p'), (E, 'q'), (F, None), (E, 'p'), (T, 'x'), (T, 'y')],
      setup=[('append', 3, 4, NA), ('setattr', 2, 3, NA)],
      ops=('append', 'insert0', 'remove', 'pop', 'normalize', 'clone', 'setattr'),
-     depth={'quick': 4, 'thorough': 5}, max_nodes=14)
+     depth={'quick': 3, 'thorough': 4}, max_nodes=14)
+_scn('clone5',
+     pool=[(E, 'p'), (E, 'q'), (F, None), (E, 'p'), (T, 'x')],
+     setup=[('append', 2, 3, NA), ('setattr', 1, 2, NA)],
+     ops=('append', 'remove', 'normalize', 'clone', 'setattr'),
+     depth={'quick': 4, 'thorough': 5}, max_nodes=8)
 _scn('full',
      pool=[(D, None), (E, 'p'), (E, 'q'), (T, 'x'), (T, 'y'), (F, None), (E, 'p'), (T, 'z'), (E, 'q'), (F, None),
            (E, 'p')],
